@@ -122,7 +122,9 @@ def run(tier, seed):
         good = True
         for i in range(len(allsent)):
             a, c = pref[(si, i)][1], pref[(si, i + 1)][1]
-            la, lc = (a.split('\n')[:-1] if a.strip() else []), (c.split('\n')[:-1] if c.strip() else [])
+            # '#const' lines are global and printed before every part (the model is ASPEncoding.__str__ without constants; that the
+            # constants are the same with and without headers is oracle 2)
+            la, lc = ([x for x in (z.split('\n')[:-1] if z.strip() else []) if not x.startswith('#const')] for z in (a, c))
             if lc[:len(la)] != la:
                 good = False      # not a prefix (C10 decides that); no attribution possible
                 break
@@ -143,7 +145,8 @@ def run(tier, seed):
             for _ in ss:
                 st.append(sl(pos)); pos += 1
             blocks_t.append('{| b_header := %s; b_sentences := %s |}' % ('None' if not h else '(Some %s)' % coq_str(h), coq_list(st)))
-        cases.append('{| bc_spec := {| leading := %s; blocks := %s |}; bc_out := %s |}' % (coq_list(lead_t), coq_list(blocks_t), coq_str(prog)))
+        no_const = '\n'.join(x for x in prog.split('\n') if not x.startswith('#const')).strip() + '\n'
+        cases.append('{| bc_spec := {| leading := %s; blocks := %s |}; bc_out := %s |}' % (coq_list(lead_t), coq_list(blocks_t), coq_str(no_const)))
         meta.append(info)
     if meta:
         rep.sample(meta[0]); rep.sample(meta[-1])
